@@ -10,7 +10,7 @@ import z3
 from sx import inv as I
 from sx.arr import SArr
 from sx.graph import SymDiGraph
-from sx.rt import And, Implies, Not, Or, SInt, int_shim, zb
+from sx.rt import And, Implies, Not, Or, SInt, Unsupported, int_shim, zb
 
 import funtracks.utils._segmentation_utils as su
 
@@ -29,7 +29,14 @@ def unique_harness(ctx, cfg):
     ctx.input("shape", list(shape))
     ctx.input("multiseg", multiseg)
     ctx.env.update(cells=inp)
-    out = su.ensure_unique_labels(a, multiseg=multiseg)
+    try:
+        out = su.ensure_unique_labels(a, multiseg=multiseg)
+    except Unsupported:
+        raise
+    except Exception as e:
+        ctx.tag(f"raised:{type(e).__name__}")
+        ctx.oblige("C19.returns_without_error", False, "C19")
+        return
     o = out.c
     ctx.tag("returned")
     nfr = 2 if multiseg else 1  # number of leading axes that index a frame/hypothesis
@@ -54,7 +61,10 @@ def unique_replay(f):
     shape = tuple(inp["shape"])
     arr = np.array(inp["cells"], dtype=np.int64).reshape(shape)
     before = arr.copy()
-    out = su_real().ensure_unique_labels(arr, multiseg=inp["multiseg"])
+    try:
+        out = su_real().ensure_unique_labels(arr, multiseg=inp["multiseg"])
+    except Exception as e:
+        return f["obligation"] == "C19.returns_without_error", f"in={before.tolist()} raised {type(e).__name__}: {e}"
     nfr = 2 if inp["multiseg"] else 1
     ob = f["obligation"]
     idxs = list(np.ndindex(*shape))
@@ -107,7 +117,14 @@ def bytrack_harness(ctx, cfg):
     ctx.input("cells", [[inp[t, p] for p in range(P)] for t in range(T)])
     real = g.realise()
     sh1 = I.Shape(g)  # shape is concrete now
-    out = su.relabel_segmentation_with_track_id(real, seg)
+    try:
+        out = su.relabel_segmentation_with_track_id(real, seg)
+    except Unsupported:
+        raise
+    except Exception as e:
+        ctx.tag(f"raised:{type(e).__name__}")
+        ctx.oblige("C19.returns_without_error", False, "C19")
+        return
     ctx.tag("returned")
     o = out.c
     segrel = sh1.seg()
@@ -142,7 +159,10 @@ def bytrack_replay(f):
                 g.add_edge(i + 1, j + 1)
     arr = np.array(inp["cells"], dtype=np.int64)
     before = arr.copy()
-    out = su_real().relabel_segmentation_with_track_id(g, arr)
+    try:
+        out = su_real().relabel_segmentation_with_track_id(g, arr)
+    except Exception as e:
+        return f["obligation"] == "C19.returns_without_error", f"in={before.tolist()} raised {type(e).__name__}: {e}"
     detail = f"nodes={dict(g.nodes(data=True))} edges={list(g.edges())} in={before.tolist()} out={out.tolist()}"
     ob = f["obligation"]
     if ob == "C19.bytrack_input_untouched":
